@@ -647,7 +647,9 @@ class AsyncClient(base_client.BaseClient):
                 self.queue.task_done()
                 packets = []
             else:
-                while True:
+                # do not put more packets in one payload than the server
+                # accepts
+                while len(packets) < payload.Payload.max_decode_packets:
                     try:
                         packets.append(self.queue.get_nowait())
                     except self.queue.Empty:
